@@ -940,7 +940,7 @@ Qed.
 (* D8: read through "%f" (binary32) the text of 123456789.123456 comes back as 123456792.0 *)
 Lemma float_look_single_refuted :
   exists b b', decode_double b <> None /\
-    scan_num {| cf_show_esc := []; cf_look_esc := []; cf_look_cont := true; cf_float_look_long := false; cf_int_signext := true;
+    scan_num {| cf_show_esc := []; cf_look_esc := []; cf_look_cont := true; cf_float_look_long := false; cf_int_signext := true; cf_int_signext_narrow := true;
                 cf_lit_measure := true; cf_pct_measure := true |}
       (spec_f false) (print_num (spec_f false) (VFloat b)) = Some (VFloat b', 16%nat)
     /\ b = 4728057454355442549 /\ b' = 4728057454548484096.
